@@ -15,7 +15,7 @@ pub const DEF: PropDef = PropDef {
     id: "C13",
     run,
     oracle,
-    rule: "cases = V5/V7 packets (raw-byte records) and conformant V9/IPFIX histories whose templates contain a random subset, in random order, of the ten projected elements (source/destination address in the IPv4 or the IPv6 variant, ports, protocol, first/last switched resp. flowStart/EndSysUpTime, source/destination MAC; natural widths, IPFIX ports and sysUpTime also in the reduced sizes RFC 7011 6.2 allows) mixed with 0..4 unrelated fields (IPFIX: also enterprise-specific elements, some numbered like a projected element, which must not be projected); 1..20 records per data set, several data sets and packets per buffer, options templates/data and template sets in between, optionally a truncated packet at the end (an Error element). Oracle: projection computed by the harness from the independent reference decode of the bytes: version; timestamp (sys_up_time for V5/V7/V9, export_time for IPFIX); one flow per data record in order; every member is Some(value derived from the wire bytes) iff the record's template has that element, else None; as_netflow_common must equal it member by member, Error elements must convert to Err, and parse_bytes_as_netflow_common_flowsets on a twin parser must equal the in-order concatenation over the non-error elements. non-trivial = a V9/IPFIX data set with >= 2 records whose template has >= 3 projected elements and >= 1 unrelated one; distinct by digest.",
+    rule: "cases = V5/V7 packets (raw-byte records) and conformant V9/IPFIX histories whose templates contain a random subset, in random order, of the ten projected elements (source/destination address in the IPv4 or the IPv6 variant, one template in eight with both, ports, protocol, first/last switched resp. flowStart/EndSysUpTime, source/destination MAC; natural widths, IPFIX ports and sysUpTime also in the reduced sizes RFC 7011 6.2 allows) mixed with 0..4 unrelated fields (IPFIX: also enterprise-specific elements, some numbered like a projected element, which must not be projected); 1..20 records per data set, several data sets and packets per buffer, options templates/data and template sets in between, optionally a truncated packet at the end (an Error element). Oracle: projection computed by the harness from the independent reference decode of the bytes: version; timestamp (sys_up_time for V5/V7/V9, export_time for IPFIX); one flow per data record in order; every member is Some(value derived from the wire bytes) iff the record's template has that element, else None; as_netflow_common must equal it member by member, Error elements must convert to Err, and parse_bytes_as_netflow_common_flowsets on a twin parser must equal the in-order concatenation over the non-error elements. non-trivial = a V9/IPFIX data set with >= 2 records whose template has >= 3 projected elements and >= 1 unrelated one; distinct by digest.",
     assumptions: &["projected elements are generated with their natural widths (ports 2, protocol 1, times 4, addresses 4/16, MAC 6; IPFIX ports also 1 and sysUpTime also 1-3 bytes) and at most once per template"],
 };
 
@@ -32,6 +32,10 @@ struct Flow {
     last_seen: Option<u32>,
     src_mac: Option<String>,
     dst_mac: Option<String>,
+    /// the IPv6 variant when the template carries both variants of an address (the
+    /// statement does not say which one the view shows: either is accepted)
+    src_alt: Option<IpAddr>,
+    dst_alt: Option<IpAddr>,
 }
 
 fn ipaddr(b: &[u8]) -> Option<IpAddr> {
@@ -103,9 +107,13 @@ fn expected_flows(r: &RefPkt) -> (Vec<Flow>, bool) {
             }
             if fl.src_addr.is_none() {
                 fl.src_addr = v6s;
+            } else {
+                fl.src_alt = v6s;
             }
             if fl.dst_addr.is_none() {
                 fl.dst_addr = v6d;
+            } else {
+                fl.dst_alt = v6d;
             }
             out.push(fl);
         }
@@ -127,8 +135,15 @@ fn cmp_flow(o: &mut Outcome, proto: &str, k: usize, e: &Flow, g: &NetflowCommonF
             }
         };
     }
-    member!(src_addr);
-    member!(dst_addr);
+    if e.src_addr != g.src_addr && !(e.src_alt.is_some() && e.src_alt == g.src_addr) {
+        return Err(format!("flow {}: src_addr is {:?}, the record's bytes give {:?} (or {:?})", k, g.src_addr, e.src_addr, e.src_alt));
+    }
+    if e.dst_addr != g.dst_addr && !(e.dst_alt.is_some() && e.dst_alt == g.dst_addr) {
+        return Err(format!("flow {}: dst_addr is {:?}, the record's bytes give {:?} (or {:?})", k, g.dst_addr, e.dst_addr, e.dst_alt));
+    }
+    if e.src_alt.is_some() || e.dst_alt.is_some() {
+        o.label("template-with-ipv4-and-ipv6-variant");
+    }
     member!(src_port);
     member!(dst_port);
     member!(first_seen);
@@ -215,6 +230,8 @@ pub fn oracle(case: &Case) -> Outcome {
                             last_seen: Some(g(rec, "last") as u32),
                             src_mac: None,
                             dst_mac: None,
+                            src_alt: None,
+                            dst_alt: None,
                         })
                         .collect();
                     o.label(format!("v{}", v));
@@ -325,6 +342,13 @@ pub fn make_projected(v9: bool, sel: Vec<usize>, s6: bool, d6: bool, extra: Vec<
         {
             let mut fields: Vec<FieldSpec> = vec![];
             for m in sel {
+                // one template in eight carries both variants of an address
+                if m == 0 && order >> 48 & 7 == 0 {
+                    fields.push(FieldSpec { ie: if s6 { 8 } else { 27 }, len: if s6 { 4 } else { 16 }, ent: None });
+                }
+                if m == 1 && order >> 51 & 7 == 0 {
+                    fields.push(FieldSpec { ie: if d6 { 12 } else { 28 }, len: if d6 { 4 } else { 16 }, ent: None });
+                }
                 let (ie, len) = match m {
                     0 => {
                         if s6 {
